@@ -8,6 +8,8 @@ Untranslatable, which degrades the tie, never turns it red).
   * propagate_aliases  `cur = alphas[jj]` ... `cur[n] = ...`  ->  `alphas[jj][n] = ...`  (view aliases of table rows, hoisted
                      sub-expressions) for the statement-based recognisers
   * inline_pure_helpers  expression-level inlining of straight-line same-module helpers, for the statement-based recognisers
+  * strip_float_entry  `x = np.asarray(x, dtype=np.result_type(x, 1.0))` on a coordinate parameter is the identity on the values
+                     (it changes the storage type only): removed before the recognisers look at the body
   * canonical_locals   injective renaming of locals to the names a recogniser expects, found from role hints (alpha-renaming with an
                      injective map never changes behaviour)
 """
@@ -592,16 +594,62 @@ def inline_pure_helpers(fn, module, no_inline=('_as_sequence', '_initialize_alph
     return ast.parse(ast.unparse(out)).body[0]
 
 
+FLOAT_DTYPES = ('float', 'np.float64', 'np.double', 'np.longdouble')
+
+
+def float_entry_param(st, params):
+    """the parameter c if st is `c = <floating-point copy of c>`: np.asarray(c, dtype=np.result_type(c, 1.0)) or an equivalent
+    spelling (np.array / np.asanyarray, c.astype(...), dtype float / np.float64); None otherwise.  Such a statement changes the
+    storage type of the coordinates, never their values (integers below 2**53, float32 and float64 are all exactly representable
+    in the result type), so over the reals - where the models live - it is the identity."""
+    if not (isinstance(st, ast.Assign) and len(st.targets) == 1 and isinstance(st.targets[0], ast.Name)):
+        return None
+    c = st.targets[0].id
+    if c not in params or not isinstance(st.value, ast.Call):
+        return None
+    call = st.value
+    ok_dtypes = {f'np.result_type({c}, 1.0)', f'np.result_type({c}, 1.)', f'np.result_type(1.0, {c})'} | set(FLOAT_DTYPES)
+    f = U(call.func)
+    if f in ('np.asarray', 'np.array', 'np.asanyarray') and len(call.args) == 1 and U(call.args[0]) == c \
+            and len(call.keywords) == 1 and call.keywords[0].arg == 'dtype' and U(call.keywords[0].value).replace('1.)', '1.0)') in ok_dtypes:
+        return c
+    if f == f'{c}.astype' and len(call.args) == 1 and not call.keywords and U(call.args[0]) in ok_dtypes:
+        return c
+    return None
+
+
+def float_entry_params(fn):
+    """{parameter: index of its conversion statement in fn.body} for the floating-point conversions at the top level of fn"""
+    params = {a.arg for a in fn.args.args}
+    out = {}
+    for k, st in enumerate(fn.body):
+        c = float_entry_param(st, params)
+        if c is not None and c not in out:
+            out[c] = k
+    return out
+
+
+def strip_float_entry(fn):
+    """copy of fn without its top-level `c = np.asarray(c, dtype=np.result_type(c, 1.0))` statements (identity on the values)"""
+    conv = float_entry_params(fn)
+    if not conv:
+        return fn
+    fn = copy.deepcopy(fn)
+    fn.body = [st for k, st in enumerate(fn.body) if k not in set(conv.values())]
+    ast.fix_missing_locations(fn)
+    return ast.parse(ast.unparse(fn)).body[0]
+
+
 def normalised_def(module, name, aliases=True, helpers=True):
     from pyexpr2lean import get_def
-    fn = get_def(module, name)
+    fn = strip_float_entry(get_def(module, name))
     try:
         if helpers:
             fn = inline_pure_helpers(fn, module)
         if aliases:
             fn = propagate_aliases(fn)
     except (Untranslatable, RecursionError):
-        return get_def(module, name)
+        return strip_float_entry(get_def(module, name))
     return fn
 
 
